@@ -175,6 +175,11 @@ pub const RULES: [(&str, &str, &str); 16] = [
     ("under-binder-slots", "(lam $z (f $z $a))", "(h $a)"),
 ];
 
+/// companion rules: applied in the SAME apply_rewrites call, before or after the rule under test.  Each of them
+/// merges a class that has slots into a slot-free one (so the class gains redundant slots during the call);
+/// "applied once" means that all rules are matched against the e-graph as it was before the call
+pub const COMPANIONS: [(&str, &str, &str); 4] = [("drop-f", "(f $a $b)", "c"), ("drop-h", "(h $a)", "d"), ("drop-dup", "(b ?x ?x)", "c"), ("drop-var", "(var $a)", "d")];
+
 /// candidate terms for a pattern variable; `bound` = instance names of the binders in whose scope the variable lies
 fn var_terms(bound: &[Name], pat_slot_image: Option<Name>) -> Vec<T> {
     let mut v = vec![leaf("c", &[]), leaf("h", &[7]), leaf("var", &[7]), leaf("f", &[7, 8]), node1("u", leaf("c", &[])), node1("u", leaf("h", &[7])), leaf("f", &[8, 7])];
@@ -378,7 +383,7 @@ fn presentations(inst: &T) -> Vec<Presentation> {
     out
 }
 
-fn run_case(rule: usize, lhs_i: &T, rhs_i: &T, pr: &Presentation, alts: &[(T, T)]) -> Result<(Option<Fail>, u64), String> {
+fn run_case(rule: usize, lhs_i: &T, rhs_i: &T, pr: &Presentation, alts: &[(T, T)], companion: Option<(usize, bool)>) -> Result<(Option<Fail>, u64), String> {
     let nm = Naming::Numeric;
     let (name, lhs, rhs) = RULES[rule];
     let mut eg = EGraph::<Sym>::default();
@@ -409,8 +414,24 @@ fn run_case(rule: usize, lhs_i: &T, rhs_i: &T, pr: &Presentation, alts: &[(T, T)
     };
     // every other renaming of the pattern's slots whose left-side instance is represented beforehand must fire too
     let alt_before: Vec<bool> = alts.iter().map(|(l, _)| lookup_rec_expr(&to_recexpr(l, nm), &eg).is_some()).collect();
-    let rw: Vec<Rewrite<Sym>> = vec![Rewrite::new(name, lhs, rhs)];
+    let mut rw: Vec<Rewrite<Sym>> = vec![Rewrite::new(name, lhs, rhs)];
+    let mut name = name.to_string();
+    if let Some((k, first)) = companion {
+        let (cn, cl, cr) = COMPANIONS[k];
+        let c = Rewrite::new(cn, cl, cr);
+        if first {
+            rw.insert(0, c);
+            name = format!("[{cn}, {name}]: {name}");
+        } else {
+            rw.push(c);
+            name = format!("[{name}, {cn}]: {name}");
+        }
+    }
+    let nodes_before = eg.total_number_of_nodes();
+    let slots_before = eg.progress().sum_of_slots;
     catch(|| apply_rewrites(&mut eg, &rw))?;
+    let _ = nodes_before;
+    let companion_dropped = companion.is_some() && eg.progress().sum_of_slots < slots_before;
     for (k, (l, r)) in alts.iter().enumerate() {
         if !alt_before[k] {
             continue;
@@ -434,7 +455,7 @@ fn run_case(rule: usize, lhs_i: &T, rhs_i: &T, pr: &Presentation, alts: &[(T, T)
     };
     let _ = before;
     if ok {
-        Ok((None, 0))
+        Ok((None, if companion_dropped { 3 } else { 0 }))
     } else {
         Ok((Some(("instance-did-not-fire".into(), format!("rule {name}: instance {} [{}]", lhs_i.to_sexp(), pr.label), format!("after applying the rule once, the right-side instance {} looks up to {r:?}, the left-side instance to {l:?} (must be represented and equal)", rhs_i.to_sexp()))), 0))
     }
@@ -448,13 +469,13 @@ impl Prop for FiresProp {
         (0..RULES.len()).map(|r| Seg { name: format!("rule-{}", RULES[r].0), count: cases(r, tier).len() as u64, what: format!("one index = one (slot renaming, variable assignment) of the rule {} => {}; the instance is planted in every presentation (literal; every proper sub-term replaced by every same-free-slot alternative + union; pairs of replacements) and the rule applied once", RULES[r].1, RULES[r].2) }).collect()
     }
     fn goals(&self) -> Vec<&'static str> {
-        vec!["instance_present_only_through_union", "child_class_with_symmetry", "repeated_variable_with_different_presentations", "instance_under_binder", "out_of_scope_redundancy_skipped"]
+        vec!["instance_present_only_through_union", "child_class_with_symmetry", "repeated_variable_with_different_presentations", "instance_under_binder", "out_of_scope_redundancy_skipped", "companion_rule_made_a_slot_redundant_in_the_same_call"]
     }
     fn required_goals(&self, _tier: Tier, _cfg: &str) -> Vec<&'static str> {
-        vec!["instance_present_only_through_union", "child_class_with_symmetry", "repeated_variable_with_different_presentations", "instance_under_binder"]
+        vec!["instance_present_only_through_union", "child_class_with_symmetry", "repeated_variable_with_different_presentations", "instance_under_binder", "companion_rule_made_a_slot_redundant_in_the_same_call"]
     }
     fn rule(&self) -> String {
-        format!("{} rules over the Sym language (repeated variables, nested nodes, free and bound pattern slots, nested binders; each bound name bound once and not used free) x every injective renaming of the pattern's free slots into a 3 (thorough 4) name pool x every assignment of the pattern variables to 7-11 small terms (also terms mentioning a pattern slot's image or the binder in scope) x every presentation: the left-side instance inserted literally, or with every proper sub-term replaced by every alternative with the same free-slot set (other operator, permuted arguments => child symmetry, self-reference) and the union of the replaced pair, or two such replacements. E-graphs with a redundant slot are out of scope and skipped (counted). After ONE apply_rewrites with the single rule, lookup_rec_expr of the right-side instance must be Some and eq to the lookup of the left-side instance; the same is required for every other injective renaming of the pattern's slots into the instance's names whose left-side instance was represented beforehand (e.g. through a child symmetry). Non-trivial = presentations other than the literal one.", RULES.len())
+        format!("{} rules over the Sym language (repeated variables, nested nodes, free and bound pattern slots, nested binders; each bound name bound once and not used free) x every injective renaming of the pattern's free slots into a 3 (thorough 4) name pool x every assignment of the pattern variables to 7-11 small terms (also terms mentioning a pattern slot's image or the binder in scope) x every presentation: the left-side instance inserted literally, or with every proper sub-term replaced by every alternative with the same free-slot set (other operator, permuted arguments => child symmetry, self-reference) and the union of the replaced pair, or two such replacements. E-graphs with a redundant slot are out of scope and skipped (counted). After ONE apply_rewrites with the single rule - and, separately, with the rule preceded or followed in the same call by each of 4 companion rules that merge a class with slots into a constant (all rules of one call are matched against the e-graph as it was before the call) - lookup_rec_expr of the right-side instance must be Some and eq to the lookup of the left-side instance; the same is required for every other injective renaming of the pattern's slots into the instance's names whose left-side instance was represented beforehand (e.g. through a child symmetry). Non-trivial = presentations other than the literal one.", RULES.len())
     }
     fn assumptions(&self) -> Vec<String> {
         vec!["presentations that create a redundant slot or do not make the instance represented are out of the property's scope and are counted, not judged".into()]
@@ -511,7 +532,13 @@ impl Prop for FiresProp {
             let sym_union = pr.unions.iter().any(|(a, b)| a.op == b.op && a.fv() == b.fv() && a != b);
             let rule = seg;
             let alts2 = alts.clone();
-            let r = fresh_thread(move || run_case(rule, &l2, &r2, &pr, &alts2));
+            let comps: Vec<Option<(usize, bool)>> = std::iter::once(None).chain((0..COMPANIONS.len()).flat_map(|k| [Some((k, true)), Some((k, false))])).collect();
+            for comp in comps {
+            let (l2, r2) = (l2.clone(), r2.clone());
+            let alts2 = alts2.clone();
+            let pr = Presentation { label: pr.label.clone(), inserts: pr.inserts.clone(), unions: pr.unions.clone() };
+            let label = match comp { None => label.clone(), Some((k, first)) => format!("{label} + companion {} {}", COMPANIONS[k].0, if first { "first" } else { "last" }) };
+            let r = fresh_thread(move || run_case(rule, &l2, &r2, &pr, &alts2, comp));
             out.traces += 1;
             out.transitions += 1 + nun as u64;
             match r {
@@ -526,11 +553,11 @@ impl Prop for FiresProp {
                         1 => {
                             out.goals |= 16;
                             out.outcomes.push("out-of-scope(redundant-slot)".into());
-                            continue;
+                            break;
                         }
                         2 => {
                             out.outcomes.push("out-of-scope(not-represented)".into());
-                            continue;
+                            break;
                         }
                         _ => {}
                     }
@@ -547,14 +574,18 @@ impl Prop for FiresProp {
                     if RULES[seg].1.contains("lam") || RULES[seg].1.contains("let") || RULES[seg].1.contains("sum") {
                         out.goals |= 8;
                     }
+                    if scope == 3 {
+                        out.goals |= 32;
+                    }
                     match fail {
-                        None => out.outcomes.push(format!("fired(unions={nun})")),
+                        None => out.outcomes.push(format!("fired(unions={nun}{})", if comp.is_some() { ",companion" } else { "" })),
                         Some((k, key, d)) => {
                             out.outcomes.push("did-not-fire".into());
                             out.fail(&k, key, d, &[]);
                         }
                     }
                 }
+            }
             }
         }
         out
